@@ -43,11 +43,41 @@ def pool(chk, mdl):
         if t not in seen: seen.add(t); out.append(t)
     return out
 
+def check_long(chk, exes):
+    """references with 256 .. 65 537 repetitions of a unit whose normal form is known by construction (percent-encoded unreserved
+    characters, upper-case letters, cancelling dot segments); judged on the implementation alone"""
+    quick = chk.tier == "quick"
+    sizes = (255, 256, 257, 32768, 65536, 65537) if quick else (255, 256, 257, 4096, 32767, 32768, 65535, 65536, 65537, 131073)
+    cases = []
+    for n in sizes:
+        # one long component
+        cases += [("s://h/" + "%41" * n, "s://h/" + "A" * n), ("HTTP://" + "Hh" * n + "/", "http://" + "hh" * n + "/"),
+                  ("?" + "%7e" * n, "?" + "~" * n), ("#" + "%2f" * n, "#" + "%2F" * n), ("//" + "%41%2d" * n + "@H", "//" + "A-" * n + "@h")]
+        # many segments (the harness records every node and text: quadratic there, so the quick tier stops at 4096 segments)
+        if quick and n > 4096: n = {32768: 1025, 65536: 4096, 65537: 4097}[n]
+        cases += [("s://h/" + "a/../" * n + "x", "s://h/x"), ("s://h/" + "./" * n + "x", "s://h/x"), ("../" * n + "x", "../" * n + "x"),
+                  ("s://h/" + "a/" * n + "..", "s://h/" + "a/" * (n - 1)), ("/" + "b/" * n + "../" * n + "c", "/c"), ("s:" + "x/" * n + "%2E%2e/y", "s:" + "x/" * (n - 1) + "y")]
+    H = uris.hist
+    for fl in (("A", "W") if quick else ("A", "W", "A_asan")):
+        for owned in (0, 1):
+            reqs = [H([('p', 0, t)] + ([('o', 0)] if owned else []) + [('n', 0, 63), ('n', 0, 63)]) for t, _ in cases]
+            impl = lib.run_lines(exes[fl], reqs, chunks=min(lib.NCPU, len(reqs)))
+            chk.cov["evaluations"] += len(reqs)
+            for (t, want), rq, o in zip(cases, reqs, impl):
+                steps, end = uris.parse_hist(o)
+                info = {"request": rq[:100] + " ... (%d characters: %s...%s)" % (len(t), t[:14], t[-10:]), "build": fl, "impl": o[:200], "owned": owned}
+                if steps is None or any("bad" in s_ for s_ in steps) or not end or end["live"] != 0 or end["bad"] != 0 or o.startswith("!"):
+                    chk.violation("crash, malformed object or unbalanced memory while normalizing a long reference", info); continue
+                got = [s_.get("text") for s_ in steps if s_.get("rc") == 0][-2:]
+                if len(got) < 2 or any(dec(g) != [ord(c) for c in want] for g in got):
+                    chk.violation("the normal form of a long reference is not the expected one (%d characters expected; after one and after two normalizations)" % len(want), info)
+
 def run(chk):
     extra = tuple(x for x in ("C08text", "C08rel", "C08all") if os.path.exists(os.path.join(lib.COQ, "Props", x + ".v")))
     proofs = lib.check_proofs(PID, extra_props=extra)
     exes = lib.build_impl(); mdl = lib.build_model()
     fnd = lib.Findings(PID)
+    check_long(chk, exes)
     texts = pool(chk, mdl)
     spec = dict(zip(texts, lib.run_lines(mdl, ["spec_canon " + x for x in lib.run_lines(mdl, ["spec_normal " + enc_s(t) for t in texts])])))
     H = uris.hist
